@@ -204,7 +204,7 @@ pub fn run(run: &mut Run) -> &'static str {
     });
     let cases = run.tier.pick(20_000, 400_000);
     run.proptest_part("positions_whose_keys_agree_on_most_bits", RULE, tape(80..200).prop_map(PairCase::Tape), cases, check_pair);
-    let cases = run.tier.pick(300_000, 6_000_000);
+    let cases = run.tier.pick(800_000, 6_000_000);
     run.proptest_part("positions", RULE, pos_case(4..160), cases, |c: &PosCase, st: &mut Stats| {
         // alternate between the general mix and the heavy-material mix
         let mix = match c {
@@ -259,5 +259,16 @@ pub fn run(run: &mut Run) -> &'static str {
         }
         Ok(())
     });
+    // thorough: coverage-guided fuzzing of the walk tape (libFuzzer target `positions`: the C16, C18 and
+    // C20 position oracles inside); crashing tapes are judged here by this property's oracle
+    let crashes: Vec<PosCase> = super::fuzzglue::campaign(run, "positions", 250_000, 12, 400).into_iter().map(PosCase::Tape).collect();
+    if !crashes.is_empty() {
+        run.exhaustive_part("fuzz_crashes", RULE, crashes, |c: &PosCase, st: &mut Stats| {
+            for gp in c.positions(Mix::General, 16, st) {
+                check_position(&gp.pos, st)?;
+            }
+            Ok(())
+        });
+    }
     RULE
 }
